@@ -354,7 +354,7 @@ class PeerWrite(Op):
         return []
 
     def ready(self, w, op):
-        return self_contained(w.m, op["from"])
+        return self_contained(w.m, op["from"], w.cfg.get("cross_module_refs", "none"))
 
     def run(self, w, op):
         import random
@@ -364,8 +364,25 @@ class PeerWrite(Op):
         style = op.get("style", {})
         if style.get("permute_modules"):
             # module order is list order: the peer emits its own order and expects it back
-            r.shuffle(snap["nodes"][snap["ir"]].a["modules"])
-            w.counters["probe:peer_module_order_permuted"] += 1
+            # (kept only if backward cross-module references stay backward)
+            mods = snap["nodes"][snap["ir"]].a["modules"]
+            before = list(mods)
+            r.shuffle(mods)
+
+            class _M:
+                pass
+
+            if w.cfg.get("cross_module_refs", "none") != "none":
+                live_order = list(w.m.nodes[op["from"]].a["modules"])
+                w.m.nodes[op["from"]].a["modules"] = list(mods)
+                try:
+                    still = self_contained(w.m, op["from"], w.cfg.get("cross_module_refs", "none"))
+                finally:
+                    w.m.nodes[op["from"]].a["modules"] = live_order
+                if not still:
+                    mods[:] = before
+            if mods != before:
+                w.counters["probe:peer_module_order_permuted"] += 1
         if style.get("sweep_enums"):
             w.counters["probe:peer_enum_constants_swept"] += sweep_enums(w, snap, r)
         prepare_aux(w, snap, r, style)
